@@ -1149,20 +1149,28 @@ JS_GLOBALS = ["console", "Math", "Array", "Int8Array", "Uint8Array", "Uint8Clamp
 
 def scan_unqualified():
     """JS globals / special identifiers that occur unqualified (not after `.`, `$` or a format verb) in the JavaScript
-    code templates (string literals that are more than a single word) of /repo/compiler/*.go"""
+    code templates of the compiler: string literals of every non-test .go file under /repo/compiler (sub-packages included;
+    prelude, natives, vendor and gopherjspkg are not code generators) that contain statement / expression punctuation, plus
+    single-word literals passed directly to formatExpr / Printf / PrintCond / newIdent. Regenerated on every run."""
     used = {}
     cdir = os.path.join(C.REPO, "compiler")
-    for f in sorted(os.listdir(cdir)):
-        if not f.endswith(".go") or f.endswith("_test.go") or f.startswith("verif_"):
-            continue
-        src = open(os.path.join(cdir, f)).read()
+    files = []
+    for root, dirs, fs in os.walk(cdir):
+        dirs[:] = [d for d in dirs if d not in ("prelude", "natives", "vendor", "gopherjspkg", "testdata")]
+        for f in sorted(fs):
+            if f.endswith(".go") and not f.endswith("_test.go") and not f.startswith("verif_"):
+                files.append(os.path.join(root, f))
+    for path in sorted(files):
+        f = os.path.relpath(path, cdir)
+        src = open(path).read()
         src = re.sub(r"(?m)^\s*//[^\n]*", "", src)
         for m in re.finditer(r'"((?:[^"\\\n]|\\.)*)"|`([^`]*)`', src):
             s = m.group(1) if m.group(1) is not None else m.group(2)
             if re.fullmatch(r"[A-Za-z_][A-Za-z0-9_]*", s):
-                continue
-            # only JavaScript templates: they contain a statement / expression delimiter
-            if not re.search(r"[;(){}\[\]=]", s):
+                if not re.search(r"(formatExpr|Printf|PrintCond|newIdent)\($", src[max(0, m.start() - 12):m.start()]):
+                    continue
+            elif not re.search(r"[;(){}\[\]=]", s):
+                # only JavaScript templates: they contain a statement / expression delimiter
                 continue
             for w in re.finditer(r"(?<![\w$.%])([A-Za-z_][A-Za-z0-9_]*)(?![\w$])", s):
                 if w.group(1) in JS_GLOBALS:
